@@ -7,31 +7,47 @@ import runner
 HERE = runner.HERE
 
 TEXT = {
-    "C01": ("L1 encoders vs. an independent MQTT 5 well-formedness checker; L2 next_step/set_written/arm_replay lemmas on the real "
-            "Outbound; L3c one-step coroutine harnesses with symbolic partial writes, faults and cancellation; L3p operation harnesses "
-            "(drain-before-encode) under contracts", "3 C01"),
-    "C02": ("L2 lemmas on the real Outbound/handle_packet (only PUBACK removes, order preserved, Sent not re-offered, replay re-arms, DUP only) "
-            "+ L3p publish(QoS1) enqueue-before-write under contract A2", "3 C02"),
-    "C03": ("L2 lemmas on real handle_packet/Outbound: PUBREC moves atomically, failing PUBREC ends, PUBCOMP removes, release order preserved", "3 C03"),
-    "C04": ("L1 decode fidelity of inbound PUBLISH + L2 handle_packet lemmas (one ack at the queue tail, duplicate suppression, PUBCOMP reason)", "3 C04"),
-    "C05": ("L2 reset lemma + L3p connect_handshake harnesses (clean_start, CONNACK sp=0/1 handling)", "3 C05"),
-    "C06": ("inductive counting invariant quota + unresolved <= Receive Maximum over real handle_packet / publish bookkeeping / CONNACK arithmetic", "3 C06"),
-    "C07": ("inductive step from an arbitrary 16-bit counter and arbitrary in-flight ids on the real next_packet_id", "3 C07"),
-    "C08": ("L1: real decoder and PacketReader on fully symbolic bytes (Kani's implicit panic/overflow/bounds checks), accept/reject classes "
-            "against the reference checker; L3p: rejection latches the handle", "3 C08"),
-    "C09": ("L1: every encoder against an independent field-level reference decoder with symbolic fields; size()/length-prefix leaf lemmas", "3 C09"),
-    "C10": ("symbolic clock: interval arithmetic exhaustive over u16 seconds; L3p service/wait lemmas with Instant::now stubbed by an arbitrary "
-            "non-decreasing clock", "3 C10"),
-    "C11": ("every latch set-site and every public operation from live=false, transport outcomes symbolic (L3c leaves, L3p operations)", "3 C11"),
-    "C12": ("L3p Session::connect from an arbitrary prior state + L2 CONNECT-behind-retained-data lemma", "3 C12"),
-    "C13": ("resumption lemma: progress recorded before every yield (L3c, symbolic drop points) + enqueue atomicity (L3p)", "3 C13"),
-    "C14": ("exact gate arithmetic (L1) + gate-before-retain/write order at every site (L3p) + ack sizes (L2)", "3 C14"),
-    "C15": ("relational harness: one symbolic stream under two independent symbolic chunkings through the real PacketReader; partial writes via C01/C13 step lemmas", "3 C15"),
-    "C16": ("variant-function lemmas only (reduced claim): each step decreases the measure; loops exit within measure+1 steps", "3 C16"),
-    "C17": ("L2 on the real Outbound arena: compaction preserves bytes, scratch disjoint from retained prefix, DUP touches bit 3 only, capacity recovered", "3 C17"),
-    "C18": ("L2 on real Session::status + handle_packet failure surfacing", "3 C18"),
-    "C19": ("fully symbolic property kind x value x context table against the MQTT 5 tables; L3p refusal leaves an empty ghost log", "3 C19"),
-    "C20": ("L1: reply helpers on symbolic encoded property blocks; reply round-trip through the real encoder and the reference decoder", "3 C20"),
+    "C01": ("L1: every client-packet encoder equals an independent byte-level reference encoder, whose output is proved well-formed by an "
+            "independent MQTT 5 checker; L2: next_step priority, progress bookkeeping, arm_replay on the real Outbound; L3c: one "
+            "perform_outbound_step as a real coroutine under symbolic partial writes, faults and cancellation; L3p: operations drain before "
+            "encoding, direct writers never start inside another packet, CONNECT first on a new transport", "3a C01"),
+    "C02": ("L2 lemmas on the real Outbound/handle_packet (only PUBACK removes, acceptance order kept, Sent not re-offered, replay re-arms, "
+            "DUP only) + L3p publish(QoS 1/2): retained with its quota slot atomically, before any write, under contract A2", "3a C02"),
+    "C03": ("L2 lemmas on real handle_packet/Outbound: PUBREC moves atomically, failing PUBREC ends, PUBCOMP removes and returns the slot, "
+            "stale acks inert, release order preserved; L3c step on PUBREL", "3a C03"),
+    "C04": ("L1 decode fidelity of inbound PUBLISH (symbolic bytes vs reference checker, lazy property iteration) + L2 handle_packet lemmas "
+            "(one ack at the queue tail also with a full arena, duplicate suppression, PUBCOMP reason, window full)", "3a C04"),
+    "C05": ("L2 reset lemma + L3p handshake in two slices (HEAD: real CONNECT encoder up to a projection cut point; TAIL: first inbound packet, "
+            "reason code, session-present handling, resume flag after failures)", "3a C05"),
+    "C06": ("inductive counting invariant quota + unresolved <= Receive Maximum over real handle_packet (every ack kind, stale acks, any reason "
+            "code), publish bookkeeping (L3p) and CONNACK arithmetic incl. replayed publishes (handshake TAIL slice)", "3a C06"),
+    "C07": ("inductive step from an arbitrary 16-bit counter and arbitrary in-flight ids on the real next_packet_id", "3a C07"),
+    "C08": ("L1: real decoder on fully symbolic bytes per (first byte, length): accept <=> structurally valid, exact field values, Kani's "
+            "implicit panic/overflow/bounds checks; varint exhaustive; framer on symbolic streams; rejection latches the handle", "3a C08"),
+    "C09": ("L1: every encoder byte-for-byte against an independent reference encoder with symbolic fields; property encoding and size() "
+            "for all 27 kinds; fixed-header back-fill; too-long fields and too-small buffers refused", "3a C09"),
+    "C10": ("symbolic clock: interval arithmetic exhaustive over u16 seconds; timers re-armed by every completed packet (L3c); service() "
+            "ping/timeout decision for every clock value, wait bounded by the earlier deadline, Server Keep Alive (L3p)", "3a C10"),
+    "C11": ("every latch set-site (step, read, packet handler, keep-alive timeout, direct writers) and every public operation from "
+            "live=false, with symbolic transport outcomes (L3c leaves, L3p operations)", "3a C11"),
+    "C12": ("L3p Session::connect HEAD slice from arbitrary leftovers of an earlier connection (reader, timers, resume flag) + TAIL slice for "
+            "failed handshakes + L2 CONNECT-behind-retained-data lemma", "3a C12"),
+    "C13": ("resumption lemma: recorded progress == accepted bytes at every yield and after every partial write (L3c, cancel at each await); "
+            "reads: delivered == committed at every read entry (L3p); enqueue atomicity at every A2 entry (L3p)", "3a C13"),
+    "C14": ("exact gate arithmetic (L1) + gate before retain/write at every site (L3p) + ack sizes (L2) + replay-time gate (L3c) + CONNECT "
+            "advertises rx size + oversize inbound refused before its body is requested", "3a C14"),
+    "C15": ("relational harness: one symbolic stream under two independent symbolic chunkings through the real PacketReader; exactly the "
+            "missing bytes requested; partial writes concatenate to the packet (L3c step, write_all)", "3a C15"),
+    "C16": ("variant-function lemmas only (reduced claim): each step decreases the measure; drain / drive_packet / wait_for_progress loops "
+            "exit within measure-bounded iterations and report progress only after real wire progress", "3a C16"),
+    "C17": ("L2 on the real Outbound arena: compaction preserves bytes for every ack position, scratch disjoint from the retained prefix, "
+            "DUP touches bit 3 only, capacity recovered", "3a C17"),
+    "C18": ("L2 on real Session::status (all kinds, ids, generations) + handle_packet failure surfacing + handle contents issued by the "
+            "operations (L3p)", "3a C18"),
+    "C19": ("fully symbolic property kind x value x context table against the MQTT 5 tables; L3p: refused requests leave an empty ghost log; "
+            "QoS downgrade incl. to QoS 0", "3a C19"),
+    "C20": ("L1: lookups in symbolic encoded property blocks; reply()/reply_owned() address exactly the requester; owned capacities at and "
+            "below the actual sizes", "3a C20"),
 }
 
 NOTE = ("Bounded: holds for all values of the symbolic variables listed per harness in the evidence, within the stated sizes and unwindings "
@@ -62,7 +78,7 @@ def main():
             "level_claimed": {
                 "category": "model_checking",
                 "text": "Bounded symbolic execution of the real code (Kani 0.68 -> CBMC 6.11 -> CaDiCaL): %s. %d quick / %d thorough harnesses, layers %s." % (TEXT[p][0], nq, nt, ",".join(layers)),
-                "design_ref": "DESIGN.md section " + TEXT[p][1],
+                "design_ref": "DESIGN.md section " + TEXT[p][1] + " (as built), section 3 (reasoning), HARNESSES.md (inventory)",
             },
             "level_note": NOTE,
             "technique": "bounded model checking of the compiled Rust (Kani/CBMC, SAT) over symbolic inputs, schedules, faults and clock",
